@@ -12,7 +12,9 @@ The theorems hold for EVERY path type `κ`, path-literal type `ρ` and resolutio
 a file is identified by its resolved path, however the literal was spelled.
 
 `RootOK fs root rootFile` (the resolver does not know the root's path, or maps it to the root document) is the only
-side condition; both resolvers of the code base satisfy it.
+side condition (of `C13_result`, `C13_scope`, `C13_result_exec` and, on both sides, of `C13_order_indep`; `C13_err_iff`,
+`C13_terminates`, `C13_total` need none); both resolvers of the code base satisfy it by inspection of the code — that is
+not proved here (for the loader model: `C19_rootOK_of_normalised` in `Props/C19Composed.lean`).
 
 Instances and compositions proved elsewhere (`Props/C12Composed.lean`, `Props/C19Composed.lean`):
 `C13_with_paths` / `C13_respelled` / `C13_literal_of_relative_path` — `res` := the C20 model of `resolve_relative_path`
@@ -20,6 +22,14 @@ Instances and compositions proved elsewhere (`Props/C12Composed.lean`, `Props/C1
 on the intended file); `C12_from_files*` — the result document feeds the runtime-document printer;
 `C19_emit_is_printer` — the resolver inside the loader's `emit_js`, on exactly the files a task holds (`resolve` reads
 its file map only through lookups and is independent of the recursion budget: `Lemmas/LoaderComposedFuel.lean`).
+
+OPEN — carried by K/O only (`harness/src/bin/c13.rs`): that the model is the code (the model recurses on explicit fuel,
+`C13_terminates` shows it is never exhausted; that the real recursion terminates is observed only; `HashMap`/`HashSet`
+are lists here; the parser is used as is, the model starts from parsed import lines); `resolveExt` succeeds ↔ the wildcard
+rules hold (`Spec.WellFormed`) — `C13_merge` speaks about successful merges only; `RootOK` of the two real
+`OperationResolver`s; the CLI's use of the resolver (every configured document a root; CLI leg, process level).
+The `legacy_*_counterexample` theorems are about `Legacy.resolve`, the algorithm BEFORE commit 7cb51d3 (the three defects
+are `fixed:` in known-findings.txt), not about the current code; each also evaluates the repaired model `resolve` on the same input.
 -/
 namespace NitroVerif.Imports
 open NitroVerif.Imports.Spec
